@@ -227,7 +227,9 @@ class World(object):
         got, rest = seq.take(cnt_take(n))
         exp = cons(got)
       if name == "peek":
-        obs = self._obs(lambda: r.peek(n) if n is not None else r.peek())
+        # the list handed out belongs to the caller: it is scribbled over at once (what the stream yields later
+        # - checked by the drain after every transition - must not depend on it)
+        obs = self._obs(lambda: _spoil(r.peek(n)) if n is not None else r.peek())
         M[h][2] = sig | {"peek"}
       else:
         if name == "iternext":
@@ -235,7 +237,7 @@ class World(object):
         elif name == "takec":
           obs = self._obs(lambda: r.take(2, constructor=cons))
         else:
-          obs = self._obs(lambda: r.take(n) if n is not None else r.take())
+          obs = self._obs(lambda: _spoil(r.take(n)) if n is not None else r.take())
         M[h][1] = rest
         M[h][2] = sig | {"take"}
       if not isinstance(obs, str) and not isinstance(exp, str):
@@ -509,6 +511,15 @@ def run_hist(case):
     first_bad.n, first_bad.extra, first_bad.succ = n, extra, succ
     return first_bad
   return R(None, nontriv, tuple(sorted(outcomes)), n, extra, succ)
+
+
+def _spoil(res):
+  """Returns a snapshot of a list result and overwrites the original in place."""
+  if isinstance(res, list):
+    snap = list(res)
+    res[:] = ["spoiled"] * (len(res) + 1)
+    return snap
+  return res
 
 
 # ------------------------------------------------ thub of a non-iterable
